@@ -181,13 +181,17 @@ def obligations(tier):
     # single message: every cut into <=3 (4) fragments of 0..2 bytes, every gap 0..2 control frames
     for shape in _shapes(4 if thorough else 3, 2, 1):
         ngaps = len(shape[0]) - 1
-        for gaps in itertools.product(range(0, 3 if ngaps <= 1 or thorough else 2), repeat=ngaps):
+        if len(shape[0]) == 4 and (sum(shape[0]) > 4 or max(shape[0]) > 1):
+            continue  # 4 fragments: payloads of 0..1 bytes each
+        for gaps in itertools.product(range(0, 3 if ngaps <= 1 or (thorough and ngaps == 2) else 2), repeat=ngaps):
             for fire, skip in ((False, False), (True, True), (False, True), (True, False)):
                 if sum(shape[0]) > 4 and not thorough:
                     continue
                 if not skip and sum(shape[0]) > (3 if thorough else 2):
                     continue  # validation on forks per byte class; the UTF-8 decision itself is C06's subject
                 if fire and not skip and sum(gaps) > 0:
+                    continue
+                if thorough and len(shape[0]) == 4 and sum(gaps) > 2:
                     continue
                 scen.append(dict(shape=shape, gaps=list(gaps), fire=fire, skip=skip))
     # two (three) messages
